@@ -222,7 +222,7 @@ func (g *tgen) failingOp(rt *rapid.T, db *model.DB) (model.Op, string) {
 	if classes == nil {
 		classes = []string{"missing-key-attr", "wrong-typed-key", "unknown-table", "unused-placeholder", "malformed-placeholder",
 			"failed-condition", "malformed-expression", "ill-typed-update", "last-action-fails", "index-key-type-put", "index-key-type-update",
-			"batch-unknown-table", "batch-bad-key", "batch-index-key-type", "key-attr-update"}
+			"batch-unknown-table", "batch-bad-key", "batch-index-key-type", "key-attr-update", "oversized-index-key"}
 	}
 	class := rapid.SampledFrom(classes).Draw(rt, "failClass")
 	key := g.key(rt)
@@ -380,6 +380,32 @@ func (g *tgen) failingOp(rt *rapid.T, db *model.DB) (model.Op, string) {
 		pos := rapid.IntRange(0, len(reqs)).Draw(rt, "badPos")
 		reqs = append(reqs[:pos:pos], append([]model.WriteReq{bad}, reqs[pos:]...)...)
 		return model.Op{Kind: "BatchWrite", Batch: []model.TableBatch{{Table: g.s.Table, Reqs: reqs}}}, class
+	case "oversized-index-key":
+		// an index key value beyond DynamoDB's size limits (1024 bytes for a sort
+		// key, 2048 for a partition key), at and just above the boundary
+		attrs := g.ixAttrs()
+		var cands []string
+		for _, a := range attrs {
+			if t.Schema.Attrs[a] != "N" {
+				cands = append(cands, a)
+			}
+		}
+		if len(cands) == 0 {
+			return simpleUpdate(badKey()), "wrong-typed-key"
+		}
+		a := rapid.SampledFrom(cands).Draw(rt, "ixAttr")
+		n := rapid.SampledFrom([]int{1024, 1025, 2048, 2049, 3000}).Draw(rt, "keyBytes")
+		big := model.Str(strings.Repeat("k", n))
+		if t.Schema.Attrs[a] == "B" {
+			big = model.Bin([]byte(strings.Repeat("k", n)))
+		}
+		if rapid.Bool().Draw(rt, "oversizedPut") {
+			it := g.item(rt)
+			it[a] = big
+			return model.Op{Kind: "Put", Table: g.s.Table, Item: it}, class
+		}
+		return model.Op{Kind: "Update", Table: g.s.Table, Key: key, Update: "SET extra = :x, #a = :w",
+			Names: map[string]string{"#a": a}, Values: map[string]model.AV{":x": model.Str("y"), ":w": big}}, class
 	case "batch-index-key-type":
 		// valid puts and deletes of distinct keys plus one put whose index key
 		// attribute has the wrong type, at a random position
@@ -439,7 +465,7 @@ func mergeUpdates(a, b model.Update) model.Update {
 	return out
 }
 
-const ruleC08 = "rapid state machine: C01/C03-style write history on a table with 0-3 indexes, in which about half of the steps are requests built to fail, one generator per error class (missing / wrongly typed key attribute, unknown table, unused or malformed placeholder, failed condition, token-mutated expression, ill-typed update, multi-action update whose last action fails, index-key type mismatch on Put and Update, failing sub-request inside a batch (malformed key, index-key type mismatch), update of a key attribute, any request under emulated failure), plus UpdateTable index creation on the populated table (on attributes that stored items hold with another type; re-declaring the type of an index key attribute); for every request that the implementation rejects (error or documented panic) the complete internal snapshot of every table and index and the full observable state are compared before and after on both SDK clients. Once a request that the reference model expects to fail is accepted by the implementation (whether it must fail is decided by C09/C13/C16, not here) the model can no longer follow the state: the rest of the history is sent without model, and only the no-trace comparison of the internal snapshots around every failing request continues. Non-trivial = a failing request executed against a non-empty table that has at least one index; distinct = hash of the operation list."
+const ruleC08 = "rapid state machine: C01/C03-style write history on a table with 0-3 indexes, in which about half of the steps are requests built to fail, one generator per error class (missing / wrongly typed key attribute, unknown table, unused or malformed placeholder, failed condition, token-mutated expression, ill-typed update, multi-action update whose last action fails, index-key type mismatch on Put and Update, index key values at and above DynamoDB's size limits, failing sub-request inside a batch (malformed key, index-key type mismatch), update of a key attribute, any request under emulated failure), plus UpdateTable index creation on the populated table (on attributes that stored items hold with another type; re-declaring the type of an index key attribute); for every request that the implementation rejects (error or documented panic) the complete internal snapshot of every table and index and the full observable state are compared before and after on both SDK clients. Once a request that the reference model expects to fail is accepted by the implementation (whether it must fail is decided by C09/C13/C16, not here) the model can no longer follow the state: the rest of the history is sent without model, and only the no-trace comparison of the internal snapshots around every failing request continues. Non-trivial = a failing request executed against a non-empty table that has at least one index; distinct = hash of the operation list."
 
 // TestC08 decides property C08.
 func TestC08(t *testing.T) {
